@@ -210,6 +210,8 @@ where
     /// preserves any existing key.
     pub fn insert(&self, key: K, value: V) {
         self.inner.rcu(|inner| {
+            #[cfg(feature = "verif-hooks")]
+            crate::verif::frim::pause("insert");
             inner
                 .iter()
                 .filter(|(k, _v)| k != &key)
@@ -228,6 +230,8 @@ where
         F: FnMut(&K, &V) -> bool,
     {
         self.inner.rcu(|inner| {
+            #[cfg(feature = "verif-hooks")]
+            crate::verif::frim::pause("retain");
             inner
                 .iter()
                 .filter(|(k, v)| f(k, v))
@@ -246,6 +250,8 @@ where
     pub fn remove(&self, key: &K) -> Option<V> {
         let mut found = None;
         self.inner.rcu(|inner| {
+            #[cfg(feature = "verif-hooks")]
+            crate::verif::frim::pause("remove");
             let mut new = inner.deref().clone();
             if let Some(pos) = inner.iter().position(|(k, _v)| k == key) {
                 let (_, v) = new.remove(pos);
